@@ -90,6 +90,69 @@ pub fn judge(st: &mut Stats, c: &Circuit, second: Option<&Circuit>) {
     if !rev_ok || r != *c {
         st.violation(Violation { sig: "reverse|wrong".into(), detail: "reverse does not reverse, or reverse twice does not restore the circuit".into(), witness: wit("reverse") });
     }
+    // construction histories: the same gate list built by mixing push_back and push_front (the gate deque is then
+    // wrapped in its ring buffer, as for circuits returned by the extractor); every in-place operation must give what
+    // it gives on the plainly built circuit
+    {
+        let gs: Vec<Gate> = c.gates.iter().cloned().collect();
+        let n = gs.len();
+        let mut splits = vec![0usize, n / 2, n];
+        if n > 1 {
+            splits.push(1);
+            splits.push(n - 1);
+        }
+        splits.sort();
+        splits.dedup();
+        for k in splits {
+            let build = || {
+                let mut w = Circuit::new(q);
+                for g in &gs[k..] {
+                    w.push_back(g.clone());
+                }
+                for g in gs[..k].iter().rev() {
+                    w.push_front(g.clone());
+                }
+                w
+            };
+            st.inc("evaluations");
+            let r = guarded(|| {
+                let w0 = build();
+                let mut wr = build();
+                wr.reverse();
+                let mut wa = build();
+                wa.adjoint();
+                let wta = build().to_adjoint();
+                let wb = build().to_basic_gates();
+                let ws = build().stats().into_array();
+                (w0, wr, wa, wta, wb, ws)
+            });
+            match r {
+                Err(p) => st.violation(Violation { sig: format!("history|panic|{}", last_panic_site()), detail: p, witness: wit("history") }),
+                Ok((w0, wr, wa, wta, wb, ws)) => {
+                    let want_adj: Vec<Gate> = gs.iter().rev().map(|g| { let mut h = g.clone(); h.adjoint(); h }).collect();
+                    let bad = if w0 != *c {
+                        Some("push_front/push_back do not build the same circuit")
+                    } else if !wr.gates.iter().eq(gs.iter().rev()) {
+                        Some("in-place reverse")
+                    } else if !wa.gates.iter().eq(want_adj.iter()) {
+                        Some("in-place adjoint")
+                    } else if wta != c.to_adjoint() {
+                        Some("to_adjoint")
+                    } else if wb != c.to_basic_gates() {
+                        Some("to_basic_gates")
+                    } else if ws != c.stats().into_array() {
+                        Some("stats")
+                    } else {
+                        None
+                    };
+                    match bad {
+                        Some(b) => st.violation(Violation { sig: format!("history|{}", b.replace(' ', "-")), detail: format!("gate list built with the first {} gates pushed to the front afterwards: {} differs from the plainly built circuit", k, b), witness: wit("history") }),
+                        None => st.inc("nontrivial"),
+                    }
+                }
+            }
+        }
+    }
     // statistics: a partition, additive over gates, and right on every unambiguous gate
     st.inc("evaluations");
     let s = c.stats();
